@@ -214,8 +214,9 @@ def interleaving_battery(seed=3):
     A, B = Case("akimotoite", st, input01_text=a1, elast_text=a2), Case("akimotoite", st, input01_text=b1, elast_text=b2)
     # A spells out non-default nested settings and overrides an output unit; B leaves every nested setting it can to the packaged defaults and uses plain keywords
     sa = {"qha": {"input": "input01", "settings": dict(st["qha"]["settings"], volume_ratio=1.25, order=4)},
-          "elast": {"input": "input02", "settings": {"mode_gamma": {"interpolator": "spline", "order": 2}, "symmetry": {"system": "orthorhombic"}}},
+          "elast": {"input": "input02", "settings": {"mode_gamma": {"interpolator": "lsq_poly", "order": 3}, "symmetry": {"system": "orthorhombic"}}},
           "output": {"pressure_base": ["cij_t", "cij", {"keyword": "bm_VRH", "unit": "kbar"}, "vs"], "volume_base": [{"keyword": "p", "unit": "kbar"}, "G_V"]}}
+    # (both use the least-squares interpolator of the same order on volume lists with equal end points and count: whatever is kept per "grid" collides)
     sb = {"qha": {"input": "input01", "settings": {k: v for k, v in st["qha"]["settings"].items() if k not in ("volume_ratio", "order", "T_MIN", "P_MIN")}},
           "elast": {"input": "input02", "settings": {"symmetry": {"system": "orthorhombic"}}},
           "output": {"pressure_base": ["cij", "cij_t", "bm_VRH", "vs"], "volume_base": ["p", "G_V"]}}
